@@ -18,6 +18,18 @@ func init() {
 
 var agentBase = time.Unix(1_700_000_000, 0)
 
+// agentDeadline: offsets from the base instant; 0 is the zero time.Time (earlier than every collect time),
+// 4e18 and above a "never" sentinel (31 December 9999), both legal deadlines
+func agentDeadline(d int) time.Time {
+	switch {
+	case d == 0:
+		return time.Time{}
+	case d >= 4000000000000000000:
+		return time.Date(9999, 12, 31, 23, 59, 59, 0, time.UTC)
+	}
+	return agentBase.Add(time.Duration(d))
+}
+
 func agentTID(id int) [stun.TransactionIDSize]byte {
 	var t [stun.TransactionIDSize]byte
 	t[0], t[1], t[11] = byte(id>>8), byte(id), 0x5A
@@ -88,7 +100,7 @@ func execAgentHistory(o *out, f [][]int) []int {
 		var err error
 		switch op[0] {
 		case 1:
-			err = a.Start(agentTID(op[1]), agentBase.Add(time.Duration(op[2])))
+			err = a.Start(agentTID(op[1]), agentDeadline(op[2]))
 		case 2:
 			if op[2] == 0 {
 				err = a.Stop(agentTID(op[1]))
@@ -102,7 +114,7 @@ func execAgentHistory(o *out, f [][]int) []int {
 			}
 			err = a.Process(m)
 		case 4:
-			err = a.Collect(agentBase.Add(time.Duration(op[1])))
+			err = a.Collect(agentDeadline(op[1]))
 		case 5:
 			err = a.SetHandler(mkHandler(op[1]))
 		case 6:
@@ -186,6 +198,25 @@ func runC13(o *out, thorough bool, r *rng, _ []string) map[string]interface{} {
 		}
 		o.run(1301, fs, true)
 		o.countN("random-ops", len(fs))
+	}
+	// handlers that call back into the agent, and overlapping Collects (recorded, linearized, replayed by the model)
+	scriptedAgentScenarios(o, "C13")
+	// unusual but legal deadlines: the zero time (already expired), a "never" sentinel far in the future
+	for i := 0; i < 60; i++ {
+		fs := []string{fNums(1, 1, 0), fNums(1, 2, 4000000000000000000), fNums(1, 3, 5), fNums(4, r.rangeIn(1, 9)),
+			fNums(2, 1, 0), fNums(1, 1, 0), fNums(4, 1), fNums(4, 3999999999999999999), fNums(6)}
+		o.run(1301, fs, true)
+		o.count("special-deadline-histories")
+	}
+	// more than a hundred transactions in flight when the agent is closed
+	for _, k := range []int{100, 101, 180} {
+		var fs []string
+		for id := 1; id <= k; id++ {
+			fs = append(fs, fNums(1, id, 1000+id))
+		}
+		fs = append(fs, fNums(4, 9), fNums(6), fNums(6))
+		o.run(1301, fs, true)
+		o.count("mass-close-histories")
 	}
 	// many transactions expiring in ONE Collect (on both sides of the 100 the library pre-allocates for)
 	for _, k := range []int{99, 100, 101, 150, 257, 300} {
